@@ -30,7 +30,7 @@ RULE = (
 EXHAUSTIVE_SUBSPACES = ["all 4 (fold, optimize) combinations (even cases)", "batch sizes 1, 2, F-1, F, F+1 for each input fold count F"]
 ASSUMPTIONS = ["reference interpreter + quadrature of vf/brute.py", "embedding / polynomial layers have no backend integrate(): documented TypeError counted as refusal"]
 FLOOR = {"logits&F>1": 1, "B=F": 1, "B=1&F>1": 1, "per-row-masks": 1, "form:tensor": 1, "form:tensor-1d": 1, "form:scope": 1, "form:list-1": 1, "form:list-B": 1,
-         "reject:out-of-scope": 1, "reject:mask-width": 1, "marginals_compared": 300, "vs-symbolic-integrate": 1, "in:binomial-probs": 1, "in:gaussian-lp": 1}
+         "reject:out-of-scope": 1, "reject:mask-width": 1, "marginals_compared": 300, "vs-symbolic-integrate": 1, "in:binomial-probs": 1, "in:gaussian-lp": 1, "requery-after-update": 1}
 
 
 def plan(tier, seed):
@@ -164,6 +164,33 @@ def run_case(case) -> Result:
                             res.features.add("vs-symbolic-integrate")
                             if not np.allclose(y.value, got, rtol=1e-8, atol=1e-10, equal_nan=True):
                                 res.violate("query-vs-symbolic-integrate", f"[{tag}] IntegrateQuery differs from compiled integrate(c,{masks[0]})")
+        # the same query object after an in-place update of the parameters (no stale integrals)
+        tie.revalue(comp, c, np.random.default_rng(vseed + 5), "posonly" if mono else "normal")
+        if not (sr == "lse-sum" and not C.monotone_ok(c, comp)):
+            B = 3
+            X = gen.random_inputs(nrng, domains, B)
+            masks = [pipes.random_subset(rng, ids) for _ in range(B)]
+            mt = torch.zeros((B, ncols), dtype=torch.bool)
+            for b, m in enumerate(masks):
+                mt[b, m] = True
+            o = call(lambda: q(C.to_tensor(X), integrate_vars=mt))
+            if o.ok and o.value.shape == (B, len(c.outputs), c.outputs[0].num_output_units):
+                got = o.value.detach().numpy()
+                rows = []
+                for b in range(B):
+                    bm = brute.marginal(c, tie.leaf_reader(comp), domains, X[b : b + 1], masks[b], max_rows=60_000)
+                    rows.append(bm)
+                dec = [b for b in range(B) if rows[b] is not None]
+                if dec:
+                    want = np.stack([rows[b][0][0] for b in dec])
+                    scale = np.stack([rows[b][1][0] for b in dec])
+                    ok, idx, msg = compare_semiring(got[dec], want, scale, sr, tol)
+                    res.count("marginals_compared", len(dec))
+                    res.features.add("requery-after-update")
+                    if not ok:
+                        res.violate("query-stale-after-update", f"[{tag}] the same IntegrateQuery object after an in-place parameter update: at {idx}: {msg}")
+            elif not o.ok:
+                exc_violation(res, o, f"IntegrateQuery after update [{tag}]", "exception-query")
         # rejections
         foreign = max(ids) + 2
         X = gen.random_inputs(nrng, domains, 2)
